@@ -331,6 +331,33 @@ def render_text(doc):
     return out
 
 
+def restyle(rng, doc, text):
+    """Byte-level classes of a hand-written file (the meaning stays the same): LF / CRLF / mixed line ends, trailing
+    blanks and tabs at line ends, a tab (or blanks and a tab) between the table name and the first cell and in front of
+    a data row, no final newline.  Returns (bytes as str, style tag)."""
+    style = rng.choice(['lf', 'lf', 'crlf', 'crlf', 'mixed'])
+    trailing = rng.random() < 0.4
+    tabs = rng.random() < 0.4
+    nofinal = rng.random() < 0.2
+    names = [t['name'].upper() for t in doc['tables']]
+    lines = text.split('\n')
+    assert lines[-1] == ''
+    out = []
+    for ln in lines[:-1]:
+        if tabs and any(ln.startswith(n + ' ') for n in names):
+            n = [n for n in names if ln.startswith(n + ' ')][0]
+            ln = rng.choice(['', '\t', ' \t']) + n + rng.choice(['\t', ' \t ', '  ']) + ln[len(n) + 1:]
+        if trailing and rng.random() < 0.5 and not ln.endswith('\\'):
+            ln += rng.choice([' ', '\t', ' \t ', '   '])
+        eol = {'lf': '\n', 'crlf': '\r\n'}.get(style) or rng.choice(['\n', '\r\n'])
+        out.append(ln + eol)
+    res = ''.join(out)
+    if nofinal:
+        res = res[:-2] if res.endswith('\r\n') else res[:-1]
+    tag = style + ('+trailing-blanks' if trailing else '') + ('+tabs' if tabs else '') + ('+no-final-newline' if nofinal else '')
+    return res, tag
+
+
 def make_text_seed(rng, doc):
     """Turn a generated document into one that is read from hand-written TEXT: character columns of undeclared length.
     The seed values stay short; the column's 'code' (used only to draw appended values and to build record arrays) is
@@ -353,6 +380,7 @@ def make_text_seed(rng, doc):
                  {'name': 'tags9', 'code': 'S%d' % rng.randint(5, 10), 'arr': k, 'unsized': True}],
         'rows': [[1, 'ok', ['a', 'b', ''][:k]], [2, 'bad', ['c', 'd', 'e'][:k]]][:rng.randint(1, 2)]})
     doc['text_seed'] = True
+    doc['text'], doc['text_style'] = restyle(rng, doc, render_text(doc))
     return doc
 
 
@@ -397,6 +425,8 @@ def gen_text_history(rng, nops):
             op = {'op': 'append', 'entries': [{'k': h.table_key(ti, lower), 'table': ti, 'rows': gen_rows(rng, h.doc, ti, rng.randint(1, 2)),
                                                'form': form}],
                   'clock': h.tick(), 'tag': 'append_rows_unsized' + ('_rec' if form == 'recarray' else '')}
+            if i == 0:
+                op['style'] = doc.get('text_style')
         else:
             op = gen_op(rng, h, ['write_copy', 'write_new', 'reread', 'append_rows', 'append_rows_rec', 'append_pairs', 'append_mixed',
                                  'write_over', 'append_empty'])
@@ -493,7 +523,7 @@ def case_term(doc, raw, ops, res, exps):
     for op, st, exp in zip(ops, res['steps'], exps):
         steps.append('(%s, %s)' % (op_term(doc, op), obs_term(st, raw, exp)))
     if doc.get('text_seed'):
-        return '(CText %s %s %s %s %s)' % (G.blit(render_text(doc)), G.blit('f0.par'), C.boollit(raw),
+        return '(CText %s %s %s %s %s)' % (G.blit(doc.get('text') or render_text(doc)), G.blit('f0.par'), C.boollit(raw),
                                            state_term(res['init'], raw, G.expected(doc)), C.coq_list(steps))
     if doc.get('plant'):
         extra = C.coq_list(['(%s, %s)' % (G.blit(it['name']), G.blit(b'' if it['cls'] == 'dir' else bytes.fromhex(it['hex'])))
@@ -570,7 +600,10 @@ def direct_checks(doc, raw, ops, res):
             pb = prev.get('bytes_hex') or ''
             nb = st.get('bytes_hex') or ''
             if not nb.startswith(pb) or len(nb) <= len(pb):
-                bad.append((k, 'append-changed-earlier-bytes', ''))
+                ob_, nb_ = bytes.fromhex(pb), bytes.fromhex(nb)
+                i0 = next((i for i in range(min(len(ob_), len(nb_))) if ob_[i] != nb_[i]), min(len(ob_), len(nb_)))
+                bad.append((k, 'append-changed-earlier-bytes', 'the file is not (old bytes + appended bytes): first difference at byte %d of %d: '
+                            'before %r, after %r' % (i0, len(ob_), ob_[max(0, i0 - 12):i0 + 6], nb_[max(0, i0 - 12):i0 + 6])))
             else:
                 added = bytes.fromhex(nb[len(pb):]).decode('latin-1')
                 npairs, nrows = h.last_lines if want == 'ok' else (0, 0)      # every pair of the dictionary gets its line
@@ -626,7 +659,7 @@ def job_of(ident, doc, raw, ops):
     if doc.get('plant'):
         j['plant'] = doc['plant']
     if doc.get('text_seed'):
-        j['text'] = render_text(doc)
+        j['text'] = doc.get('text') or render_text(doc)
     return j
 
 
@@ -797,6 +830,8 @@ def report(ctx, hists, dist, nsteps, groups, outside, term_hashes, sample_term):
         'histories': len(hists),
         'raw_histories': sum(1 for h in hists if h[1]),
         'text_seeded_histories': sum(1 for h in hists if h[0].get('text_seed')),
+        'text_seed_byte_styles': {st: sum(1 for h in hists if h[0].get('text_style') == st)
+                                  for st in sorted(set(h[0].get('text_style') for h in hists if h[0].get('text_style')))},
         'histories_in_theorem_domain': len(hists) - len(outside) - sum(1 for h in hists if h[0].get('text_seed')),
         'first_history_outside_domain': ({'doc': outside[0][0], 'ops': outside[0][2]} if outside else None),
         'ops_by_kind_and_outcome': dist,
